@@ -840,7 +840,7 @@ pub fn run(args: &Args) -> i32 {
     let mut c04 = mk("C04", "contexts (generated chains with forks, epoch positions, proposal window offsets) x candidate transactions (valid bases and single-rule violations with thresholds computed from the model for commit position n), each judged alone in a block at n and by the pool at tip n-1, on a directly synchronised node and on a node that reached the context through another delivery order; distinct = (candidate kind, context class, path)");
     let mut c14 = mk("C14", "the same candidate/event sequence on a warm node with default caches and on a node with store caches of size 0 / 1 whose verification cache is cleared before every event; verdicts, recorded fees/cycles/sizes and chain query answers compared; distinct = (candidate kind, cache configuration)");
     let mut rng = Rng::new(args.seed ^ 0xC04);
-    let n_ctx = args.get_u64("contexts", args.tier.pick(4, 60));
+    let n_ctx = args.get_u64("contexts", args.tier.pick(4, 200));
     let deadline = Instant::now() + Duration::from_secs(args.get_u64("budget_s", args.tier.pick(90, 1100)));
     let mut ci = 0u64;
     let mut done = 0u64;
